@@ -188,6 +188,9 @@ Layout ==
      peer-address *)
   "DHCPv6" :> C(4, TRUE, [msg_type |-> P(0, 8), transaction_id |-> P(8, 24)]) @@
   "DHCPv6_relay" :> C(34, TRUE, [msg_type |-> P(0, 8), hop_count |-> P(8, 8), link_address |-> A(16, 128), peer_address |-> A(144, 128)]) @@
+  (* the other relay message type (Relay-reply, 13) and a client message whose type number is an option code elsewhere (Decline, 9) *)
+  "DHCPv6_relay_reply" :> C(34, TRUE, [msg_type |-> P(0, 8), hop_count |-> P(8, 8), link_address |-> A(16, 128), peer_address |-> A(144, 128)]) @@
+  "DHCPv6_decline" :> C(4, TRUE, [msg_type |-> P(0, 8), transaction_id |-> P(8, 24)]) @@
   (* IEEE Std 802.11-2012: generic header (frame control, duration, address 1) *)
   "Dot11" :> C(10, TRUE, Dot11FC) @@
   "Dot11Data" :> C(24, TRUE, Dot11FC @@ Dot11Seq) @@                                              \* 8.3.2.1 Fig 8-30
